@@ -26,21 +26,23 @@ ENUM = {
     "quick":    [dict(module="MC_SchemaRel", cfg="MC_SchemaRel_quick.cfg", workers=8)],
     # ClipCrash (TypeError inside the validator) is a branch of the as-found "before" validator only
     "thorough": [dict(module="MC_SchemaRel", cfg="MC_SchemaRel_thorough.cfg", workers=16, coverage=True,
-                      may_be_unused=["ClipCrash"])],
+                      may_be_unused=["ClipCrash", "CeMergedOk", "CeMergedBad"])],      # branches of the controls only
 }
 POOL = 12
 CHUNK = 4000
 PATHS = ["ctor", "dict", "json", "aoef"]
 RULE = ("every case of the TLA+ enumeration -- clip evaluations: 0..2 annotations x 0..2 predictions x match lists over "
         "(none | p1 | p2 | foreign) x (none | a1 | a2 | foreign), also with annotations / predictions that wrap one and the same "
-        "sound event (a1 and a2, a foreign annotation and a1, all three) x clip pairing (same object, equal copy, other clip, other "
-        "recording); single matches; annotation projects: task x annotation membership over 3 clips; clips: 5 x 5 start/end "
+        "sound event (a1 and a2, a foreign annotation and a1, all three) and with predictions that carry the uuid of an "
+        "annotation x clip pairing (same object, equal copy, later-enriched copies of the same uuid, other clip, other "
+        "recording); single matches; annotation projects: task x annotation membership over 3 clips x later-enriched copies of a clip on the task / annotation side; clips: 5 x 5 start/end "
         "values x number encodings (numbers, numeric strings, mixed) x 2 units; scores: 10 values around 0 and 1 (+ absent) x "
         "6 bounded fields (+ Evaluation.score, observed only) x number/string -- each built through 4 paths; "
         "non-trivial = every case (each is a distinct arrangement); the evidence counts valid and invalid ones")
 TRUSTED_BASE = ["checks/c04.py (builds objects / dicts / JSON / AOEF documents from the case, calls constructors, "
                 "model_validate, model_validate_json, io.load; reads stored values back by uuid and as exact limbs)"]
-ASSUMPTIONS = ["AOEF documents are self-contained (every referenced id is defined): dangling references are C02's subject",
+ASSUMPTIONS = ["a clip is identified by its uuid: a copy with added features / a tagged copy of its recording is the same clip",
+               "AOEF documents are self-contained (every referenced id is defined): dangling references are C02's subject",
                "two clips are 'the same clip' iff they carry the same uuid (object identity is not required)",
                "Evaluation.score is unbounded in the library and not named by the statement's anchors: observed, not judged",
                "NaN start/end times are not generated (the statement speaks of orderings)"]
@@ -64,8 +66,15 @@ CLIP_ID = {"A": 0x10, "B": 0x11}
 SE_ID, ANN_ID, PRED_ID, MATCH_ID = 0x20, 0x30, 0x40, 0x50
 
 
-def _clip(uid, rec=REC, start=0.0, end=10.0):
-    return data.Clip(uuid=U(uid), recording=rec, start_time=start, end_time=end)
+def _clip(uid, rec=REC, start=0.0, end=10.0, enriched=0):
+    """enriched: a later copy of the same clip (same uuid, recording uuid, times) with more non-identity content:
+    1 = clip features were computed, 2 = its copy of the recording received a tag."""
+    kw = {}
+    if enriched == 1:
+        kw["features"] = [data.Feature(term=data.term_from_key("snr"), value=1.5)]
+    if enriched == 2:
+        rec = rec.model_copy(update={"tags": [TAG]})
+    return data.Clip(uuid=U(uid), recording=rec, start_time=start, end_time=end, **kw)
 
 
 def _se(k):
@@ -85,8 +94,14 @@ def _ann(k, wrap=None):
 K = 6                      # universe numbers 1..K for annotations and for predictions (enumerated cases use 1..3)
 
 
-def _pred(k, wrap=None):
-    return data.SoundEventPrediction(uuid=U(PRED_ID + k), sound_event=_se(K + _wrapped(wrap, k)), score=0.5)
+def _pred_uuid(k, share=None):
+    """The uuid of prediction k: its own, or -- share[k - 1] = j > 0 -- the very uuid of annotation j."""
+    j = share[k - 1] if share and k <= len(share) else 0
+    return U(ANN_ID + j) if j else U(PRED_ID + k)
+
+
+def _pred(k, wrap=None, share=None):
+    return data.SoundEventPrediction(uuid=_pred_uuid(k, share), sound_event=_se(K + _wrapped(wrap, k)), score=0.5)
 
 
 def _attempt(fn):
@@ -127,6 +142,10 @@ def _pairing_clips(pairing):
         return a, a
     if pairing == "copy":
         return a, _clip(CLIP_ID["A"])
+    if pairing == "copy_features":        # same clip, enriched later: same uuid, still that clip
+        return a, _clip(CLIP_ID["A"], enriched=1)
+    if pairing == "copy_rec_tag":
+        return a, _clip(CLIP_ID["A"], enriched=2)
     if pairing == "diff_times":
         return a, _clip(CLIP_ID["B"], start=20.0, end=30.0)
     if pairing == "diff_rec":
@@ -134,11 +153,11 @@ def _pairing_clips(pairing):
     raise ValueError(pairing)
 
 
-def _ce_stored(ce):
+def _ce_stored(ce, share=None):
     if ce is None:
         return {"same_clip": False, "anns": [], "preds": [], "ms": []}
     ann_of = {U(ANN_ID + k): k for k in range(1, K + 1)}
-    pred_of = {U(PRED_ID + k): k for k in range(1, K + 1)}
+    pred_of = {_pred_uuid(k, share): k for k in range(1, K + 1)}      # per side: a prediction is looked up among predictions
     return {"same_clip": ce.annotations.clip.uuid == ce.predictions.clip.uuid,
             "anns": [ann_of.get(a.uuid, 9) for a in ce.annotations.sound_events],
             "preds": [pred_of.get(p.uuid, 9) for p in ce.predictions.sound_events],
@@ -149,16 +168,17 @@ def _ce_stored(ce):
 def _ce(case):
     na, np_, ms, pairing = case["na"], case["np"], case["ms"], case["pairing"]
     ase, pse = case.get("ase"), case.get("pse")        # which sound event each annotation / prediction wraps
+    pu = case.get("pu")                                # predictions that carry the uuid of an annotation
 
     def parts():
         ca_clip, cp_clip = _pairing_clips(pairing)
         ca = data.ClipAnnotation(uuid=U(0x60), clip=ca_clip, sound_events=[_ann(k, ase) for k in range(1, na + 1)], created_on=T0)
-        cp = data.ClipPrediction(uuid=U(0x61), clip=cp_clip, sound_events=[_pred(k, pse) for k in range(1, np_ + 1)])
+        cp = data.ClipPrediction(uuid=U(0x61), clip=cp_clip, sound_events=[_pred(k, pse, pu) for k in range(1, np_ + 1)])
         return ca, cp
 
     def ctor():
         ca, cp = parts()
-        matches = [data.Match(uuid=U(MATCH_ID + i), source=_pred(s, pse) if s else None, target=_ann(t, ase) if t else None,
+        matches = [data.Match(uuid=U(MATCH_ID + i), source=_pred(s, pse, pu) if s else None, target=_ann(t, ase) if t else None,
                               affinity=0.5) for i, (s, t) in enumerate(ms)]
         return data.ClipEvaluation(uuid=U(0x70), annotations=ca, predictions=cp, matches=matches)
 
@@ -169,11 +189,11 @@ def _ce(case):
         for i, (s, t) in enumerate(ms):
             m = {"uuid": str(U(MATCH_ID + i)) if mode == "json" else U(MATCH_ID + i), "affinity": 0.5}
             if mode == "json":                       # JSON path: absent sides are explicit nulls
-                m["source"] = dump(_pred(s, pse)) if s else None
+                m["source"] = dump(_pred(s, pse, pu)) if s else None
                 m["target"] = dump(_ann(t, ase)) if t else None
             else:                                    # dict path: absent sides are simply missing
                 if s:
-                    m["source"] = dump(_pred(s, pse))
+                    m["source"] = dump(_pred(s, pse, pu))
                 if t:
                     m["target"] = dump(_ann(t, ase))
             md.append(m)
@@ -185,6 +205,11 @@ def _ce(case):
         pred_clip = str(U(CLIP_ID["A"]))
         if pairing == "copy":                         # the same clip written down a second time
             clips.append(dict(clipA))
+        elif pairing == "copy_features":              # ... a second time, enriched (the registry keeps one clip per uuid)
+            clips.append(dict(clipA, features={"snr": 1.5}))
+        elif pairing == "copy_rec_tag":
+            recs.append(dict(REC_DOC, tags=[0]))
+            clips.append(dict(clipA))
         elif pairing == "diff_times":
             clips.append({"uuid": str(U(CLIP_ID["B"])), "recording": str(U(1)), "start_time": 20.0, "end_time": 30.0})
             pred_clip = str(U(CLIP_ID["B"]))
@@ -194,19 +219,19 @@ def _ce(case):
             pred_clip = str(U(CLIP_ID["B"]))
         doc = {
             "uuid": str(U(0x80)), "collection_type": "evaluation", "created_on": T0S, "evaluation_task": "t",
-            "recordings": recs, "clips": clips,
+            "tags": [TAG_DOC], "recordings": recs, "clips": clips,
             "sound_events": [{"uuid": str(U(SE_ID + k)), "recording": str(U(1)),
                               "geometry": {"type": "TimeInterval", "coordinates": [1.0, 2.0]}} for k in range(1, 2 * K + 1)],
             "sound_event_annotations": [{"uuid": str(U(ANN_ID + k)), "sound_event": str(U(SE_ID + _wrapped(ase, k))), "created_on": T0S}
                                         for k in range(1, K + 1)],
             "clip_annotations": [{"uuid": str(U(0x60)), "clip": str(U(CLIP_ID["A"])), "created_on": T0S,
                                   "sound_events": [str(U(ANN_ID + k)) for k in range(1, na + 1)]}],
-            "sound_event_predictions": [{"uuid": str(U(PRED_ID + k)), "sound_event": str(U(SE_ID + K + _wrapped(pse, k))), "score": 0.5}
+            "sound_event_predictions": [{"uuid": str(_pred_uuid(k, pu)), "sound_event": str(U(SE_ID + K + _wrapped(pse, k))), "score": 0.5}
                                         for k in range(1, K + 1)],
             "clip_predictions": [{"uuid": str(U(0x61)), "clip": pred_clip,
-                                  "sound_events": [str(U(PRED_ID + k)) for k in range(1, np_ + 1)]}],
+                                  "sound_events": [str(_pred_uuid(k, pu)) for k in range(1, np_ + 1)]}],
             "matches": [dict({"uuid": str(U(MATCH_ID + i)), "affinity": 0.5},
-                             **({"source": str(U(PRED_ID + s))} if s else {}),
+                             **({"source": str(_pred_uuid(s, pu))} if s else {}),
                              **({"target": str(U(ANN_ID + t))} if t else {})) for i, (s, t) in enumerate(ms)],
             "clip_evaluations": [{"uuid": str(U(0x70)), "annotations": str(U(0x60)), "predictions": str(U(0x61)),
                                   "matches": [str(U(MATCH_ID + i)) for i in range(len(ms))]}],
@@ -224,7 +249,7 @@ def _ce(case):
     out = []
     for p in PATHS:
         obj, exc = _attempt(fns[p])
-        out.append({"path": p, "built": obj is not None, "exc": exc, "stored": _ce_stored(obj)})
+        out.append({"path": p, "built": obj is not None, "exc": exc, "stored": _ce_stored(obj, pu)})
     return out
 
 
@@ -289,6 +314,7 @@ def _match(case):
 # ================================================================= kind "project": annotation projects
 def _project(case):
     tasks, anns = case["task"], case["ann"]
+    enr = case.get("enr", [0, 0, 0])       # the task's and the annotation's copies of clip k differ in non-identity content
     clip_ids = [0x10, 0x11, 0x12]
 
     def stored(p):
@@ -299,8 +325,10 @@ def _project(case):
                 "ann": [idx.get(a.clip.uuid, 9) for a in p.clip_annotations]}
 
     def parts():
-        cas = [data.ClipAnnotation(uuid=U(0x60 + k), clip=_clip(clip_ids[k]), created_on=T0) for k in range(3) if anns[k]]
-        tks = [data.AnnotationTask(uuid=U(0x90 + k), clip=_clip(clip_ids[k]), created_on=T0) for k in range(3) if tasks[k]]
+        cas = [data.ClipAnnotation(uuid=U(0x60 + k), clip=_clip(clip_ids[k], enriched=(2 if enr[k] == 2 else 0)), created_on=T0)
+               for k in range(3) if anns[k]]
+        tks = [data.AnnotationTask(uuid=U(0x90 + k), clip=_clip(clip_ids[k], enriched=(1 if enr[k] == 1 else 0)), created_on=T0)
+               for k in range(3) if tasks[k]]
         return cas, tks
 
     def as_dict(mode):
@@ -552,12 +580,17 @@ def random_cases(rng, tier):
             elif ms:
                 i = rng.randrange(len(ms))
                 ms[i] = [ms[i][0], 0] if ms[i][0] else [0, ms[i][1]]           # one side dropped (no-op if one-sided)
-        pairing = rng.choice(["same", "same", "same", "copy", "copy", "diff_times", "diff_rec"])
+        pairing = rng.choice(["same", "same", "copy", "copy_features", "copy_rec_tag", "diff_times", "diff_rec"])
         ase, pse = list(range(1, K + 1)), list(range(1, K + 1))
         for wrap in (ase, pse):                                  # some annotations / predictions share a sound event
             for _ in range(rng.choice([0, 0, 1, 2])):
                 wrap[rng.randrange(K)] = rng.randrange(1, K + 1)
-        yield {"kind": "ce", "na": na, "np": np_, "ms": ms[:9], "pairing": pairing, "ase": ase, "pse": pse}
+        pu = [0] * K                                             # some predictions carry the uuid of an annotation
+        for j in rng.sample(range(1, K + 1), rng.choice([0, 0, 1, 2])):
+            pu[rng.randrange(K)] = j
+        if len({j for j in pu if j}) < len([j for j in pu if j]):
+            pu = [0] * K                                         # two predictions must not share one uuid
+        yield {"kind": "ce", "na": na, "np": np_, "ms": ms[:9], "pairing": pairing, "ase": ase, "pse": pse, "pu": pu}
 
 
 def finding_key(obs, clause):
@@ -584,9 +617,10 @@ MANIFEST = {
              "no match without sides; annotated clips have tasks; start <= end; scores in [0,1]) and what a built object may "
              "store; MC_SchemaRel.tla transcribes the validators of soundevent.data step by step (before/after mode, list-vs-set "
              "duplicate tests, set comparisons, ge/le with NaN) and TLC proves accepted <=> Valid for every enumerated "
-             "arrangement -- including annotations / predictions that wrap one and the same sound event -- and path (the as-found "
-             "before-mode clip validator and a validator keyed on the wrapped sound event are kept as controls with TLC's "
-             "counterexamples); "
+             "arrangement -- including annotations / predictions that wrap one and the same sound event, predictions that carry "
+             "an annotation's uuid, and later-enriched copies of a clip (same uuid) -- and path (the as-found before-mode clip "
+             "validator, a validator keyed on the wrapped sound event, a merged uuid pool and deep clip equality are kept as "
+             "controls with TLC's counterexamples); "
              "every case is then built through the constructor, model_validate, model_validate_json (numbers also as numeric "
              "strings) and a hand-written AOEF document loaded with io.load, and TLC validates ConstructIffValid, PathsAgree "
              "and StoredWithinBounds on what was built and stored. Bounded-exhaustive plus random larger clip evaluations."),
